@@ -26,6 +26,7 @@ class Net:
         self.p = subprocess.Popen([core.NVH, "run", "-"], stdin=subprocess.PIPE, stdout=subprocess.PIPE, stderr=subprocess.DEVNULL, env=e, text=True, bufsize=1)
         self.m = subprocess.Popen([core.MODEL, "--serve"], stdin=subprocess.PIPE, stdout=subprocess.PIPE, stderr=subprocess.DEVNULL, text=True, bufsize=1)
         self.mscript = []        # the same operations as given to the model (its own operation ids)
+        self.mdisp = []          # ... without the implementation's annotations (for the comparison)
         self.mout = []           # model output per operation
         self.ids_i = []; self.ids_m = []   # operation ids in order of first appearance, implementation / model
         self.script = []         # flat primitive operations
@@ -58,8 +59,14 @@ class Net:
     def raw(self, line):
         """one primitive operation on the implementation and — with the operation ids translated — on the model"""
         res = self._talk(self.p, line)
+        # an annotation of the implementation (`@ SNAP order=…`: the hash order it observed) replaces the operation for the model
+        ann = next((l for l in res if l.startswith("@ ")), None)
+        res = [l for l in res if not l.startswith("@ ")]
         self.script.append(line); self.out.append(res)
-        mline = core.OPID.sub(lambda mm: self.ids_m[self.ids_i.index(mm.group(0))] if mm.group(0) in self.ids_i and self.ids_i.index(mm.group(0)) < len(self.ids_m) else mm.group(0), line)
+        tr = lambda t: core.OPID.sub(lambda mm: self.ids_m[self.ids_i.index(mm.group(0))] if mm.group(0) in self.ids_i and self.ids_i.index(mm.group(0)) < len(self.ids_m) else mm.group(0), t)
+        self.mdisp.append(tr(line))
+        if ann is not None and line.startswith("@"): line = line.split(" ", 1)[0] + " " + ann[2:]
+        mline = tr(line)
         mres = self._talk(self.m, mline)
         self.mscript.append(mline); self.mout.append(mres)
         for l in res:
@@ -174,7 +181,7 @@ def form_cluster(net, k, rng=None):
 
 def compare(net):
     """first operation on which model and implementation differ (canonical text), or None"""
-    a = canon_ops(net.mscript, net.mout); b = canon_ops(net.script, net.out)
+    a = canon_ops(net.mdisp, net.mout); b = canon_ops(net.script, net.out)
     if a == b: return None
     for i, (x, y) in enumerate(zip(a, b)):
         if x != y:
